@@ -145,7 +145,8 @@ def run_case(ctx, i, rng):
                                        ("instance", dd.children, None),
                                        ("port", dd.ports, None)):
                     cands = [x for x in coll if x.name and x.name.swapcase() != x.name and
-                             not any(y.name == x.name.swapcase() for y in coll)]
+                             not any(y.name == x.name.swapcase() for y in coll) and
+                             not (kind == "cable" and x.name.endswith("]"))]   # a scalar net named b[3] would read as a bus bit
                     if not cands or rng.random() < 0.6:
                         continue
                     x = rng.choice(cands)
